@@ -182,7 +182,7 @@ def _unlimit_stack():
             pass
 
 
-def run_impl(lines, jobs=None, timeout=int(os.environ.get("VERIF_CHUNK_TIMEOUT", "600"))):
+def run_impl(lines, jobs=None, timeout=int(os.environ.get("VERIF_CHUNK_TIMEOUT", "300"))):
     """run lvh on input lines (parallel chunks, order preserved). Returns output lines."""
     return _run_chunks([LVH], lines, jobs, timeout, None)
 
@@ -233,9 +233,9 @@ def _run_chunks(cmd, lines, jobs, timeout, preexec):
     return res
 
 
-def evaluate(cases, jobs=None):
+def evaluate(cases, jobs=None, timeout=None):
     """cases: list of input lines. Returns list of (input line, impl line, verdict)."""
-    impl = run_impl(cases, jobs)
+    impl = run_impl(cases, jobs) if timeout is None else run_impl(cases, jobs, timeout)
     fixed = []
     for c, o in zip(cases, impl):
         if o.startswith("CRASH") or o == "SKIPPED":
